@@ -81,12 +81,15 @@ fn check_ops(rs: &dyn RankSelectOps, o: &Oracle, ps: &[usize], has_select0: bool
 }
 
 fn make_bv(bits: &[bool], mode: u32) -> BitVector {
-    // mode 0: push; 1: over-push then resize down; 2: over-push then pop; 3: with_size + set
+    // mode 0: push; 1: over-push then resize down; 2: over-push then pop; 3: with_size(false) + set;
+    // 4: with_size(true) + clear; 5: push a prefix, grow with resize(n, true), then write the rest
     let mut bv = BitVector::new();
     match mode {
         1 => { for &b in bits { bv.push(b).unwrap(); } for _ in 0..700 { bv.push(true).unwrap(); } bv.resize(bits.len(), false).unwrap(); }
         2 => { for &b in bits { bv.push(b).unwrap(); } for _ in 0..70 { bv.push(true).unwrap(); } for _ in 0..70 { bv.pop(); } }
         3 => { bv = BitVector::with_size(bits.len(), false).unwrap(); for (i, &b) in bits.iter().enumerate() { if b { bv.set(i, true).unwrap(); } } }
+        4 => { bv = BitVector::with_size(bits.len(), true).unwrap(); for (i, &b) in bits.iter().enumerate() { if !b { bv.set(i, false).unwrap(); } } }
+        5 => { let h = bits.len() / 2; for &b in &bits[..h] { bv.push(b).unwrap(); } bv.resize(bits.len(), true).unwrap(); for i in h..bits.len() { if !bits[i] { bv.set(i, false).unwrap(); } } }
         _ => { for &b in bits { bv.push(b).unwrap(); } }
     }
     bv
@@ -281,7 +284,7 @@ fn run_one(cx: &mut Ctx, c: &Value) {
 
 pub fn run(args: &Args) {
     let mut cx = Ctx {
-        sum: Summary::new("C04", "all bit strings of length <= 10 (quick) / 12 (thorough); generated vectors at lengths around 64/256/512/2048/65536 boundaries with densities all-0, all-1, single bit at a boundary, 1/1000, 1/2, 7/8, 999/1000, long runs; bit vectors built by push, by over-push + resize-down, by over-push + pop, by with_size + set; every position for rank0/rank1/get and every k (plus ones, ones+1) for select0/select1 when len <= 1400, boundary + random sample otherwise; non-trivial = length >= 65 with both bit values present"),
+        sum: Summary::new("C04", "all bit strings of length <= 10 (quick) / 12 (thorough); generated vectors at lengths around 64/256/512/2048/65536 boundaries with densities all-0, all-1, single bit at a boundary, 1/1000, 1/2, 7/8, 999/1000, long runs; bit vectors built by push, by over-push + resize-down, by over-push + pop, by with_size(false) + set, by with_size(true) + clear, by growing with resize(n, true); four vectors with runs of 8200..20032 ones at 8192-bit boundaries; every position for rank0/rank1/get and every k (plus ones, ones+1) for select0/select1 when len <= 1400, boundary + random sample otherwise; non-trivial = length >= 65 with both bit values present"),
         shards: CoqShards::new(HEADER, 40),
         budget: if args.thorough { 4000 } else { 480 },
         all_queries: args.thorough,
@@ -314,10 +317,17 @@ pub fn run(args: &Args) {
             one_vector(&mut cx, &bits, 0, &mut rng, v % 61 == 0);
         }
     }
+    // long runs of ones (byte-wide lane counters of the bulk popcount kernels wrap at 256 per lane)
+    for (lead, ones, tail, mode) in [(0usize, 20032usize, 0usize, 0u32), (8192, 8200, 100, 0), (8192, 16384, 37, 4), (100, 9000, 7000, 5)] {
+        let mut bits = vec![false; lead]; bits.extend(std::iter::repeat(true).take(ones)); bits.extend(std::iter::repeat(false).take(tail));
+        cx.sum.dist("long_run_vectors");
+        let mut r2 = rng.clone();
+        one_vector(&mut cx, &bits, mode, &mut r2, false);
+    }
     let ngen = if args.thorough { 6000 } else { 420 };
     for i in 0..ngen {
         let bits = gen_bits(&mut rng, args.thorough);
-        let mode = if i % 7 == 3 { 1 } else if i % 7 == 5 { 2 } else if i % 7 == 6 { 3 } else { 0 };
+        let mode = if i % 7 == 3 { 1 } else if i % 7 == 5 { 2 } else if i % 7 == 6 { 3 } else if i % 7 == 1 { 4 } else if i % 7 == 2 { 5 } else { 0 };
         if i < 3 { cx.sum.sample(json!({"len": bits.len(), "ones": bits.iter().filter(|b| **b).count(), "mode": mode, "first_runs": runs_of(&bits).iter().take(6).map(|(b, k)| json!([*b as u8, k])).collect::<Vec<_>>()})); }
         cx.sum.dist(&format!("build_mode={}", mode));
         cx.sum.dist_max("max_len", bits.len() as u64);
